@@ -12,6 +12,7 @@ from ..gen.doc import DocGen
 from ..gen.schemas import rich_inc as rich
 from ..mon.astutil import plain
 from ..ref import lexer as R1
+from .c02 import generated_schema
 
 LEVEL = "exploration"
 LEVEL_TEXT = ("Generated valid documents, AST-level near-valid mutants (22 named edits) and grammar-random documents over the schema's vocabulary are "
@@ -20,13 +21,15 @@ LEVEL_TEXT = ("Generated valid documents, AST-level near-valid mutants (22 named
               "determinism of two consecutive runs, untouched document and schema, and the max_errors prefix law for n in {0,1,2,5}.")
 LEVEL_NOTE = "laws need no model; trusted: the multiset comparison of (message, locations), structural snapshots of the document, print_schema snapshot of the schema"
 TECHNIQUE = "runtime monitoring: algebraic/metamorphic laws (rule-union, reprint/layout/description invariance, determinism, max_errors prefix) over generated documents"
-RULE = ("documents: type-directed valid ones, one or two AST mutations of them (rename, alias collision, argument/variable/fragment/directive edits, cycles, duplicates), "
+RULE = ("schema: the rich fixed schema (4/5) or one of 4000 generated valid schemas (1/5); type-system documents (grammar-random over a small name pool, concatenations of two G-schema documents, "
+        "each alone and as an extension of a generated schema) under validate_sdl with the specified SDL rules: union, subset/order, determinism, reprint and no_location laws; "
+        "executable documents: type-directed valid ones, one or two AST mutations of them (rename, alias collision, argument/variable/fragment/directive edits, cycles, duplicates), "
         "grammar-random ones over the schema vocabulary; each parsed with and without locations; rule sets: all specified rules, random subsets and orders, singletons. "
         "Non-trivial: the document produces >= 1 validation error; distinct = distinct (document text, rule set).")
 ASSUMPTIONS = ["errors are compared as multisets of (message, locations); across reprint/layout changes, of messages only",
                "max_errors is set to 10000 for the union law so truncation cannot interfere"]
 REQUIRED_COUNTERS = ["union_laws_checked", "reprint_laws_checked", "layout_laws_checked", "description_laws_checked",
-                     "determinism_checked", "max_errors_laws_checked", "documents_with_errors"]
+                     "determinism_checked", "max_errors_laws_checked", "documents_with_errors", "sdl_union_laws_checked", "sdl_documents_with_errors"]
 
 BIG = 10000
 
@@ -50,8 +53,8 @@ def diff(a, b):
     return {"only_first": [list(map(str, k)) for k in (a - b)][:4], "only_second": [list(map(str, k)) for k in (b - a)][:4]}
 
 
-def check_doc(ctx, schema, text, rng, origin, schema_snapshot):
-    case = {"source": text, "origin": origin, "seed": rng.getrandbits(32)}
+def check_doc(ctx, schema, text, rng, origin, schema_snapshot, schema_index=None):
+    case = {"source": text, "origin": origin, "seed": rng.getrandbits(32), "schema": schema_index}
     r = random.Random(case["seed"])
     try:
         doc = parse(text)
@@ -180,13 +183,125 @@ def check_doc(ctx, schema, text, rng, origin, schema_snapshot):
         ctx.nontrivial((text, 'all'))
 
 
+def check_sdl(ctx, text, rng, base_sdl, origin):
+    """The same laws for type-system documents under validate_sdl (specified_sdl_rules), alone or as an extension."""
+    from graphql import build_schema
+    from graphql.validation.specified_rules import specified_sdl_rules
+    from graphql.validation.validate import validate_sdl
+    case = {"kind": "sdl", "source": text, "base_sdl": base_sdl, "origin": origin, "seed": rng.getrandbits(32)}
+    r = random.Random(case["seed"])
+    try:
+        doc = parse(text)
+        base = build_schema(base_sdl) if base_sdl else None
+    except Exception:  # noqa: BLE001
+        ctx.count("unparseable_documents")
+        return
+    ctx.case()
+    ctx.label("origins", origin)
+
+    def run(d, rules=None):
+        try:
+            return validate_sdl(d, base, rules)
+        except Exception as e:  # noqa: BLE001
+            ctx.violation(f"validate-sdl-crash:{type(e).__name__}", {"source": text[:400], "exception": repr(e)[:300],
+                                                                      "rules": [x.__name__ for x in rules] if rules else None}, case)
+            return None
+    snap = plain(doc, with_loc=True)
+    full = run(doc)
+    if full is None:
+        return
+    if full:
+        ctx.count("sdl_documents_with_errors")
+    again = run(doc)
+    ctx.count("determinism_checked")
+    if again is None or [(e.message, e.locations) for e in again] != [(e.message, e.locations) for e in full]:
+        ctx.violation("nondeterministic:sdl", {"source": text[:400], "first": [e.message for e in full][:5]}, case)
+        return
+    rules_all = list(specified_sdl_rules)
+    singles = {}
+    for rule in rules_all:
+        res = run(doc, [rule])
+        if res is None:
+            return
+        singles[rule] = sig(res)
+    ctx.count("union_laws_checked")
+    ctx.count("sdl_union_laws_checked")
+    union = sum(singles.values(), collections.Counter())
+    if union != sig(full):
+        ctx.violation("union-law:all-sdl-rules", {"source": text[:400], **diff(sig(full), union)}, case)
+        return
+    subset = r.sample(rules_all, r.randint(1, len(rules_all)))
+    sub = run(doc, subset)
+    if sub is None:
+        return
+    if sig(sub) != sum((singles[x] for x in subset), collections.Counter()):
+        ctx.violation("union-law:sdl-subset-or-order", {"source": text[:400], "rules": [x.__name__ for x in subset]}, case)
+        return
+    if plain(doc, with_loc=True) != snap:
+        ctx.violation("document-modified:sdl", {"source": text[:400]}, case)
+        return
+    msgs = sig(full, False)
+    try:
+        doc2 = parse(print_ast(doc))
+    except Exception:  # noqa: BLE001
+        doc2 = None
+    if doc2 is not None:
+        ctx.count("reprint_laws_checked")
+        res = run(doc2)
+        if res is not None and sig(res, False) != msgs:
+            ctx.violation("reprint-changes-messages:sdl", {"source": text[:400], **diff(msgs, sig(res, False))}, case)
+            return
+    res = run(parse(text, no_location=True))
+    if res is not None and sig(res, False) != msgs:
+        ctx.violation("no-location-changes-messages:sdl", {"source": text[:400], **diff(msgs, sig(res, False))}, case)
+        return
+    if full:
+        ctx.nontrivial((text, base_sdl or '', 'sdl'))
+
+
+def sdl_case(ctx, rng, k):
+    from ..gen.schema import SchemaGen, render_sdl
+    pool = ['Query', 'A', 'B', 'I', 'U', 'E', 'In', 'Int', 'String', 'f', 'g', 'x', 'ID', 'Mutation', 'S', 'dir', 'deprecated']
+    mode = k % 4
+    base_sdl = None
+    if mode == 0:
+        text, origin = src.gen_source(rng, 'sdl', names=pool, max_depth=2, hostile=0.0, style='plain'), "G-src sdl"
+    elif mode == 1:
+        a = render_sdl(SchemaGen(random.Random(rng.getrandbits(30)), adversarial=0.0).model())
+        b = render_sdl(SchemaGen(random.Random(rng.getrandbits(30)), adversarial=0.0).model())
+        text, origin = a + '\n' + b, "two G-schema documents concatenated"      # clashing names of every kind
+    elif mode == 2:
+        base_sdl = render_sdl(SchemaGen(random.Random(rng.getrandbits(30)), adversarial=0.0).model())
+        text, origin = src.gen_source(rng, 'sdl', names=pool, max_depth=2, hostile=0.0, style='plain'), "G-src sdl as extension of a G-schema schema"
+    else:
+        base_sdl = render_sdl(SchemaGen(random.Random(rng.getrandbits(30)), adversarial=0.0).model())
+        text = render_sdl(SchemaGen(random.Random(rng.getrandbits(30)), adversarial=0.0).model())
+        origin = "G-schema document as extension of another"
+    check_sdl(ctx, text, rng, base_sdl, origin)
+
+
 def run_shard(ctx):
+    for k in range(ctx.n(1600, 50000)):
+        sdl_case(ctx, ctx.rng, k)
     schema = rich()
     snapshot = print_schema(schema)
     vocab = docmut.vocabulary(schema)
     rng = ctx.rng
+    rich_schema, rich_snapshot, rich_vocab = schema, snapshot, vocab
+    gen_cache = {}
     for k in range(ctx.n(4500, 150000)):
         mode = rng.random()
+        schema, snapshot, vocab, sidx = rich_schema, rich_snapshot, rich_vocab, None
+        if k % 5 == 4:
+            # a generated schema (G-schema) instead of the fixed one
+            sidx = rng.randrange(4000)
+            if sidx not in gen_cache:
+                gs = generated_schema(sidx)
+                gen_cache[sidx] = None if gs is None else (gs, print_schema(gs), docmut.vocabulary(gs))
+            if gen_cache[sidx] is None:
+                continue
+            schema, snapshot, vocab = gen_cache[sidx]
+            ctx.count("documents_on_generated_schemas")
         if mode < 0.25:
             g = DocGen(schema, rng, ops=('query', 'mutation', 'subscription'), p_defer=0.1, p_stream=0.1)
             text, origin = g.gen(), "G-doc"
@@ -210,13 +325,19 @@ def run_shard(ctx):
             text = src.gen_source(rng, 'exec', names=vocab[:40] + ['F1', 'F2', 'v0', 'v1', 'if', 'skip', 'include', 'defer', 'stream'], max_depth=3,
                                   hostile=0.05, style='plain')
             origin = "G-src over schema vocabulary"
-        check_doc(ctx, schema, text, rng, origin.split('+')[0] if origin.startswith('G-src') else origin, snapshot)
+        check_doc(ctx, schema, text, rng, origin.split('+')[0] if origin.startswith('G-src') else origin, snapshot, sidx)
         if k % 1499 == 0:
             ctx.sample({"origin": origin, "source": text[:400]})
 
 
 def replay(ctx, case):
-    schema = rich()
+    if case.get("kind") == "sdl":
+        class _S(random.Random):
+            def getrandbits(self, k):
+                return case["seed"]
+        check_sdl(ctx, case["source"], _S(0), case.get("base_sdl"), case.get("origin", "replay"))
+        return
+    schema = rich() if case.get("schema") is None else generated_schema(case["schema"])
 
     class _R(random.Random):
         def getrandbits(self, k):
